@@ -872,6 +872,8 @@ func divFacts(a, b *Term, known func(*Term) bool) (q, r *Term, facts []*Term) {
 			Eq(a, Add(Mul(b, q), r)),
 			Implies(Ge(a, z), And(Le(z, r), Lt(r, b), Ge(q, z), Le(q, a))),
 			Implies(Lt(a, z), And(Lt(Neg(b), r), Le(r, z), Le(q, z))),
+			// link to the form quantified specifications use (terms with bound variables cannot carry facts)
+			Eq(q, GoDiv(a, b)),
 		}
 		return
 	}
@@ -881,6 +883,7 @@ func divFacts(a, b *Term, known func(*Term) bool) (q, r *Term, facts []*Term) {
 		Implies(And(Ge(a, z), Lt(b, z)), And(Le(z, r), Lt(r, Neg(b)), Le(q, z))),
 		Implies(And(Lt(a, z), Gt(b, z)), And(Lt(Neg(b), r), Le(r, z), Le(q, z))),
 		Implies(And(Lt(a, z), Lt(b, z)), And(Lt(b, r), Le(r, z), Ge(q, z))),
+		Implies(Neq(b, z), Eq(q, GoDiv(a, b))),
 	}
 	return
 }
